@@ -527,7 +527,7 @@ def _helper_call(m, x):
     return c, tgt, nm
 
 
-def affine_paths(m, fname, lossless=False, preserve=()):
+def affine_paths(m, fname, lossless=False, preserve=(), stop_at_unsummarised=False):
     """evaluate the whole function to affine post-states: [(final state, bytes moved, #copy loops, return line, call events)],
     the Eval used (for entry-atom names) and the name map.  Loops are summarised by their induction variables; calls to
     helpers the rule tables do not know are evaluated through their bodies."""
@@ -566,6 +566,10 @@ def affine_paths(m, fname, lossless=False, preserve=()):
                 lp, res = loops[nid]
                 st = dict(st)
                 if 'skip' in res:
+                    if stop_at_unsummarised:
+                        # the caller only needs what happens up to here (call events): end the path at the loop
+                        finals.append((st, moved, nloops, lp.line, events, None))
+                        continue
                     raise AnalysisBroken('RF17: loop at line %d of %s cannot be summarised (%s)' % (lp.line, fn_name, res['skip']))
                 ind = {}
                 for l, vals in res['steps'].items():
@@ -654,11 +658,21 @@ def affine_paths(m, fname, lossless=False, preserve=()):
                     ev.events = None
             if outs is None:
                 outs = [(st, moved, nloops, events)]
+            decided = None
+            if node.kind == 'br' and node.x is not None:
+                bx = strip(node.x)
+                if bx.k == 'bin' and bx.op in SIGNS:
+                    va_, vb_ = ev.ev(bx.kids[0], st), ev.ev(bx.kids[1], st)
+                    if is_lin(va_) and is_lin(vb_) and not va_[1] and not vb_[1]:
+                        d_ = va_[2] - vb_[2]
+                        decided = {'>': d_ > 0, '>=': d_ >= 0, '==': d_ == 0, '!=': d_ != 0, '<=': d_ <= 0, '<': d_ < 0}[bx.op]
             for (st_, mv_, nl_, evs_) in outs:
                 for (t, lab) in node.succ:
                     if node.kind == 'br' and node.x is not None and strip(node.x).k == 'int' and lab in (True, False) \
                             and lab != bool(strip(node.x).val):
                         continue
+                    if decided is not None and lab in (True, False) and lab != decided:
+                        continue              # a comparison of two constants: only one edge is feasible
                     work.append((t, st_, mv_, nl_, evs_))
         return finals
 
@@ -673,7 +687,8 @@ def position(ctx, table=None, minimum=4):
     for fname in sorted(table):
         fld = table[fname]
         m.need(fname)
-        props = ['C06', 'C02', 'C03']
+        # C01: a position that runs past the end makes `Size - Offset` wrap and the next access writes behind the storage
+        props = ['C06', 'C02', 'C03', 'C01']
         g = m.cfg(fname)
         finals, ev, names = affine_paths(m, fname)
         posloc = None
@@ -792,6 +807,68 @@ def account(ctx):
     ctx.require_min(['C02', 'C03'], RULE3, n, 4, 'return classes of the segmented transfer handlers')
 
 
+RULE4 = 'RF17-refill'
+
+
+def block_refill(ctx):
+    """Block upload, one block: the transfer buffer holds exactly the block that is about to be sent.  When a block is
+    (re)built, the bytes kept at the front of the buffer (the segments the client did not confirm, moved there by the copy
+    loop) plus the bytes fetched from the object behind them add up to the block: 7 x segments.  Decided on affine forms:
+    for every call of the object accessor in COSdoUploadBlock,  (buffer position handed over - Buf.Start) + length  is
+    7 x Blk.SegNum or 7 x Blk.SegCnt (the block as it was sent), unless the length is what is left of the object
+    (Blk.Size).  Fetching more skips object bytes for good (they were read but never sent), fetching less sends stale
+    buffer contents: a go-back-N retransmission then delivers bytes that are not the object's."""
+    m = ctx.m
+    f = 'COSdoUploadBlock'
+    acc = 'COObjRdBufCont'
+    props = ['C03']
+    m.need(f, acc)
+    finals, ev, names = affine_paths(m, f, lossless=True, preserve=('CO_SDO_SEG', 'CO_SDO_BUF', 'CO_SDO_BLK'),
+                                     stop_at_unsummarised=True)
+    ctx.exception(RULE4, f, 'assumptions: the object accessor does not modify the server\'s Buf / Blk records; narrowing casts of '
+                            'byte counts are lossless (RF7)')
+    start = blk = None
+    # the fill phase may live in a helper extracted from the function: look through the helpers the tables do not know
+    for fn_name in reversed(m.helper_closure(f)):
+        for c in walk(m.funcs[fn_name].body):
+            if c.k == 'mem' and c.field == ('CO_SDO_BUF', 'Start') and loc_of(c) is not None:
+                start = loc_of(c)
+            if c.k == 'mem' and c.field in (('CO_SDO_BLK', 'SegNum'), ('CO_SDO_BLK', 'SegCnt'), ('CO_SDO_BLK', 'Size')) and loc_of(c) is not None:
+                blk = blk or {}
+                blk[c.field[1]] = loc_of(c)
+    if start is None or not blk or len(blk) < 3:
+        ctx.broke(props, 'RF17-refill: COSdoUploadBlock does not use Buf.Start / Blk.SegNum / Blk.SegCnt / Blk.Size')
+        return
+    a_start = atom('@' + start[1])
+    allowed = [(lscale(atom('@' + blk['SegNum'][1]), 7), '7 x Blk.SegNum'), (lscale(atom('@' + blk['SegCnt'][1]), 7), '7 x Blk.SegCnt')]
+    a_size = atom('@' + blk['Size'][1])
+    seen = {}
+    for (st, moved, nloops, line, events) in finals:
+        for e in events:
+            if e[0] != acc or len(e[1]) < 4:
+                continue
+            pos, length = e[1][2], e[1][3]
+            off = ladd(pos, a_start, -1) if is_lin(pos) else TOP
+            total = ladd(off, length) if (is_lin(off) and is_lin(length)) else TOP
+            ok = (length == a_size) or any(total == a for (a, nm) in allowed)
+            seen.setdefault((e[2], _show(off), _show(length), ok), total)
+    n = 0
+    for (line, off, length, ok), total in sorted(seen.items(), key=str):
+        n += 1
+        site = '%s: %s at buffer offset %s, length %s' % (m.loc(f, line), acc, off, length)
+        if ok:
+            ctx.ob(props, RULE4, f, site, 'kept + fetched == one block (or the rest of the object)')
+        else:
+            ctx.ob(props, RULE4, f, site, None)
+            ctx.find(props, RULE4, f, 'refill:%s' % length.replace(' ', ''), m.loc(f, line),
+                     '%s builds the next block with %s bytes kept at the front of the buffer and fetches %s more from the object: '
+                     'together %s, required 7 x Blk.SegNum / 7 x Blk.SegCnt (one block) or Blk.Size (the rest of the object). After a '
+                     'partially confirmed block the object is read ahead by the wrong amount: bytes are skipped or stale buffer contents '
+                     'are sent' % (f, off, length, _show(total)))
+    ctx.inst('RF17.refill-calls', n)
+    ctx.require_min(props, RULE4, n, 3, 'object accessor calls in COSdoUploadBlock')
+
+
 def _show(v):
     if v == TOP:
         return '<not expressible>'
@@ -843,3 +920,5 @@ def run(ctx):
     lockstep(ctx)
     position(ctx)
     account(ctx)
+    if 'COSdoUploadBlock' in ctx.m.funcs:
+        block_refill(ctx)
